@@ -36,7 +36,7 @@ HERE = os.path.dirname(os.path.dirname(os.path.abspath(__file__)))
 
 # fixed base seed lists (VERIF_SEED only adds the random histories and a few extra seeds)
 QUICK_SEEDS = [0, 1, 4, 11, 12, 13]      # six seeds whose twelve programs translate fast enough for the quick tier
-THOROUGH_SEEDS = list(range(0, 60))
+THOROUGH_SEEDS = list(range(0, 40))
 STAGES = ['generated', 'erased', 'overwritten']
 
 
@@ -407,13 +407,16 @@ class Checker:
             d.update(translator=tl, package=cfg[0], options=dict(cfg[1]))
             return d
 
+        state = [b0]       # the last observed bytes: every change is reported once, at the step that made it
+
         def unchanged(tl, cfg, after):
             self.evals += 1
-            b = pickle.dumps(prog)
-            if b == b0:
+            b, before = pickle.dumps(prog), state[0]
+            if b == before:
                 return
-            d = struct_diff(pickle.loads(b0), prog)
-            exp = 'pickle.dumps(program) identical before and after (%d bytes)' % len(b0)
+            state[0] = b
+            d = struct_diff(pickle.loads(before), prog)
+            exp = 'pickle.dumps(program) identical before and after (%d bytes)' % len(before)
             if d:
                 self.report('program-unchanged:structure', ident(tl, cfg), after=after, expected=exp,
                             actual='%d bytes; first structural difference: %s' % (len(b), d))
@@ -684,8 +687,8 @@ def _job(args):
 
 def seeds_for(tier, vseed):
     base = QUICK_SEEDS if tier == 'quick' else THOROUGH_SEEDS
-    # quick: VERIF_SEED only drives the random histories; thorough: it also adds six seeds
-    extra = random.Random(vseed).sample(range(1000, 100000), 0 if tier == 'quick' else 6)
+    # quick: VERIF_SEED only drives the random histories; thorough: it also adds four seeds
+    extra = random.Random(vseed).sample(range(1000, 100000), 0 if tier == 'quick' else 4)
     return base + extra
 
 
